@@ -57,6 +57,15 @@ __attribute__((noinline)) unsigned w_bech32_roundtrip(unsigned m, const unsigned
     w.u32((uint32_t)r.encoding); w.bytes((const unsigned char*)r.hrp.data(), r.hrp.size()); w.bytes(r.data.data(), r.data.size());
     return (unsigned)(w.p - out);
 }
+// the same with a caller-chosen human-readable part
+__attribute__((noinline)) unsigned w_bech32_roundtrip_hrp(unsigned m, const char* hrp, const unsigned char* vals, unsigned n, unsigned char* out) {
+    Wr w{out}; std::vector<unsigned char> v(vals, vals + n);
+    std::string s = bech32::Encode(m ? bech32::Encoding::BECH32M : bech32::Encoding::BECH32, hrp, v);
+    bech32::DecodeResult r = bech32::Decode(s);
+    w.bytes((const unsigned char*)s.data(), s.size());
+    w.u32((uint32_t)r.encoding); w.bytes((const unsigned char*)r.hrp.data(), r.hrp.size()); w.bytes(r.data.data(), r.data.size());
+    return (unsigned)(w.p - out);
+}
 __attribute__((noinline)) unsigned w_bech32_decode(const char* s, unsigned char* out) {
     Wr w{out};
     bech32::DecodeResult r = bech32::Decode(s);
